@@ -61,7 +61,7 @@ def enc_value(x):
     return {"k": "f", "v": enc_fmtstr(x)}
 
 
-WARM = 0   # bit mask: the operands built next are looked at first (1 .s, 2 str(), 4 .width, 8 len() / hash / width_at_offset);
+WARM = 0   # bit mask (4096: the same call was made right before on render twins of the operands, see twin_input): the operands built next are looked at first (1 .s, 2 str(), 4 .width, 8 len() / hash / width_at_offset);
            # 16: equal runs of a value are one shared Chunk object (as f + f, f * n, join build them);
            # 32: the recorded call is the second identical call on the same operand objects (fmtlib._again);
            # 64: the same call was cut short by a foreign exception at some line first (fmtlib._cut_short);
@@ -267,6 +267,43 @@ def build_fmtstr(runs):
     if WARM & 1024 and not WARM & 128:
         prologue(f)
     return warm(f, WARM) if WARM & 15 else f
+
+
+def _is_runs(v):
+    return (isinstance(v, list) and bool(v)
+            and all(isinstance(r, list) and len(r) == 2 and isinstance(r[0], list) and isinstance(r[1], list) and len(r[1]) == 8
+                    and all(isinstance(c, int) for c in r[0]) and all(isinstance(c, int) for c in r[1]) for r in v))
+
+
+def _twin_runs(runs):
+    """another run list with the very same terminal string: the formatting spelled out as escape characters in the text
+    of one plain run (or, when the text already holds escape characters, their parse); for an unformatted value the same
+    text in one run without any explicitly-False attribute"""
+    from curtsies.formatstring import FmtStr, Chunk
+    try:
+        f = FmtStr(*(Chunk(dec_text(t), dec_atts(a)) for t, a in runs))
+        s = str(f)
+        if any(c in (27, 155) for t, _ in runs for c in t):
+            g = FmtStr.from_str(s)
+            return enc_fmtstr(g) if str(g) == s else runs
+        if s != f.s:
+            return [[enc_text(s), list(NOATTS)]]
+        return [[enc_text(s), list(NOATTS)]]
+    except Exception:  # noqa - no twin for this value
+        return runs
+
+
+def twin_input(v):
+    """an input description with every FmtStr operand replaced by a render twin (plain str operands stay)"""
+    if isinstance(v, dict):
+        if v.get("k") == "s":
+            return v
+        return {k: twin_input(x) for k, x in v.items()}
+    if _is_runs(v):
+        return _twin_runs(v)
+    if isinstance(v, list):
+        return [twin_input(x) for x in v]
+    return v
 
 
 def build_value(v):
